@@ -117,4 +117,21 @@ theorem vGreater_eq {a b : Version} (ha : VG s a) (hb : VG s b) :
   rw [OrientedCmp.eq_swap (cmp := genericOrd s) (a := b)]
   cases genericOrd s a b <;> simp
 
+/-! ### kernel-evaluable comparisons (through the structural `vcompare`) for concrete instances -/
+
+def ltB (a b : Version) : Bool := match vcompare a b with | .ok c => decide (c < 0) | _ => false
+def leB (a b : Version) : Bool := match vcompare a b with | .ok c => decide (c ≤ 0) | _ => false
+
+theorem ltB_iff {a b : Version} (ha : VG s a) (hb : VG s b) : ltB a b = true ↔ pt s a < pt s b := by
+  unfold ltB
+  rw [vcompare_eq ha hb]
+  simp only [ordToInt_lt_zero, decide_eq_true_eq]
+  rfl
+
+theorem leB_iff {a b : Version} (ha : VG s a) (hb : VG s b) : leB a b = true ↔ pt s a ≤ pt s b := by
+  unfold leB
+  rw [vcompare_eq ha hb]
+  simp only [ordToInt_le_zero']
+  rfl
+
 end DepsDev.Proofs.C09
